@@ -483,6 +483,35 @@ def wrap_suite(tier, seed, sid0):
     return out, {"replayed": len(out)}
 
 
+def large_suite(tier, seed, sid0):
+    """chunk sizes and lengths around 1024 / 2048 (typical block sizes of an implementation): few runs, long traces.
+    Everything else in the suites uses sizes below 16, so a change that treats "large" requests differently would
+    never be exercised."""
+    rng = random.Random(seed * 577 + 3)
+    out = []
+    kinds = ["iter", "cloned_iter", "slice", "vec"] + (["refiter", "range", "array", "copied_slice"] if tier == "thorough" else [])
+    reps = 1 if tier == "quick" else 4
+    for kind in kinds:
+        for (ln, n) in [(1030, 1025), (2060, 2048), (1500, 1024)]:
+            if kind == "array":
+                ln = 8          # arrays of the harness are short: the request is what is large
+            for _ in range(reps):
+                t1 = [{"op": "chunk", "n": n, "take": rng.choice([0, 2])}]
+                t2 = [{"op": rng.choice(["next", "nextid"])}, {"op": "nextid"}]
+                t3 = [{"op": "bnew", "n": n - 1}, {"op": "bnext", "take": 1}]
+                threads = [t1, t2] + ([t3] if rng.random() < 0.5 else [])
+                rng.shuffle(threads)
+                sc = {"id": sid0 + len(out), "kind": kind, "len": ln, "threads": threads, "policy": "rand", "seed": rng.randrange(1 << 30),
+                      "post": [{"op": "len"}, {"op": "chunk", "n": n, "take": 1}, {"op": "intoseq", "take": 2}],
+                      "tag": {"suite": "large"}}
+                if kind == "range":
+                    sc["start"] = 7
+                if kind in TICKET:
+                    sc["hint"] = rng.choice(["exact", "unbounded"])
+                out.append(sc)
+    return out, {"replayed": len(out)}
+
+
 def lowlevel_suite(tier, seed, sid0):
     """C14, dynamic clause: sequences of SAFE public calls including the low-level ones of the public trait
     `AtomicIter` (get, fetch_n, progress_and_get_begin_idx, counter().store) on the consuming kinds."""
